@@ -273,60 +273,12 @@ func r11c(c *an.Ctx) {
 		}
 		seenT := map[string]bool{}
 		ok := xcall != nil
+		var why []string
 		if ok {
-			hdr := headerInstrs(xcall.Block())
-			for _, b := range fn.Blocks {
-				v, trueIdx, isC := an.BoolCondEdge(b)
-				if !isC || !isFieldNamed(v, "Critical") {
-					continue
-				}
-				// whose Critical? base is a type-asserted role (possibly through embedded structs)
-				base := an.FieldBase(v)
-				for {
-					if nb := an.FieldBase(base); nb != nil {
-						base = nb
-						continue
-					}
-					if u, isU := base.(*ssa.UnOp); isU && u.Op == token.MUL {
-						if nb := an.FieldBase(u.X); nb != nil {
-							base = nb
-							continue
-						}
-					}
-					break
-				}
-				tname := ""
-				for _, l := range an.BackSlice(base, an.SliceOpts{}) {
-					_ = l
-				}
-				if ex, isEx := base.(*ssa.Extract); isEx {
-					if ta, isTA := ex.Tuple.(*ssa.TypeAssert); isTA {
-						tname = an.TypeShort(ta.AssertedType)
-					}
-				}
-				seenT[tname] = true
-				crit, non := b.Succs[trueIdx], b.Succs[1-trueIdx]
-				reach := func(x *ssa.BasicBlock) bool {
-					if x == xcall.Block() {
-						return true
-					}
-					for _, h := range hdr {
-						if h == x.Instrs[0] {
-							return false // straight back to the loop header: `continue`
-						}
-					}
-					return an.CanReachAvoiding(x.Instrs[0], xcall, hdr)
-				}
-				if reach(non) {
-					ok = false // a non-critical leaf is folded in
-				}
-				if !reach(crit) {
-					ok = false // a critical leaf is skipped
-				}
-			}
+			ok, seenT, why = foldSkipsExactlyNonCritical(xcall)
 		}
 		ok = ok && seenT["*workflow.taskRole"] && seenT["*workflow.callRole"] && len(seenT) == 2
-		c.Ob("core/workflow.aggregateState|skips-exactly-noncritical-leaves", fn.Pos(), ok, "the state fold must skip a task/call role iff it is not critical (criticality tests on: %v)", keysOf(seenT))
+		c.Ob("core/workflow.aggregateState|skips-exactly-noncritical-leaves", fn.Pos(), ok, "the state fold must skip a task/call role iff it is not critical (criticality tests on: %v) %v", keysOf(seenT), why)
 		// initial value INVARIANT (neutral)
 		c.Subject()
 		inv := enumConsts(c, "core/task/sm", "State")["INVARIANT"]
